@@ -116,14 +116,21 @@ def endToken (kind : TokKind) (i : Input) : Input :=
     else i.tokRev
   { i with token := { kind := kind, pos := i.token.pos, endPos := i.pos, text := rev.reverse } }
 
+/-- the runes isIdent excludes before the IsSpace/IsPrint test: `' ', '(', ')', '[', ']', '{', '}', ','` -/
+def identExcluded : List Nat := [32, 40, 41, 91, 93, 123, 125, 44]
+
 /-- isIdent -/
 def isIdent (c : Nat) : Bool :=
-  if c == 32 || c == 40 || c == 41 || c == 91 || c == 93 || c == 123 || c == 125 || c == 44 then false
+  if identExcluded.contains c then false
   else !UnicodePrint.isSpace c && UnicodePrint.isPrint c
 
-/-- the punctuation bytes of readToken's `switch` (newline included). -/
-def isPunct (c : Nat) : Bool :=
-  c == 10 || c == 40 || c == 41 || c == 91 || c == 93 || c == 123 || c == 125 || c == 44
+/-- the punctuation runes of readToken's `switch`: `'\n', '(', ')', '[', ']', '{', '}', ','` -/
+def punctRunes : List Nat := [10, 40, 41, 91, 93, 123, 125, 44]
+
+/-- the string quote runes of readToken's `switch`: `'"'`, backquote -/
+def quoteRunes : List Nat := [34, 96]
+
+def isPunct (c : Nat) : Bool := punctRunes.contains c
 
 /-- skip ' ', '\t', '\r' -/
 def skipSpaces : Nat → Input → Except SynErr Input
@@ -200,7 +207,7 @@ def readToken (i : Input) : Except SynErr Input := do
       if isPunct c then do
         let (_, i) ← readRune i
         .ok (endToken (.punct (UInt8.ofNat c)) i)
-      else if c == 34 || c == 96 then do
+      else if quoteRunes.contains c then do
         let (_, i) ← readRune i
         let i ← readString c (i.remaining.length + 1) i
         .ok (endToken .string i)
